@@ -696,7 +696,7 @@ func (ld *Loaded) coverageScans(id string) []*FuncResult {
 	var out []*FuncResult
 	for _, k := range order {
 		o := &Obligation{Name: shortStem(k.pkg, k.typ) + "#protect:coverage", Kind: "protect", Static: true, Props: []string{id}}
-		var missing []string
+		var missing, inferred []string
 		n := 0
 		for _, p := range ld.prog.AllPackages() {
 			if p.Pkg.Path() != k.pkg {
@@ -716,6 +716,15 @@ func (ld *Loaded) coverageScans(id string) []*FuncResult {
 				n++
 				have[st.Field(i).Name()] = true
 				if !seen[k][st.Field(i).Name()] {
+					// a field without a clause is accepted if one of the disciplines can be
+					// inferred for it from its uses (a counter only touched through sync/atomic, a
+					// configuration field only stored by the constructors, a sync value, a field
+					// only accessed under one of the struct's mutexes): it is reported only when
+					// none fits
+					if d := ld.inferDiscipline(k.pkg, k.typ, st, i); d != "" {
+						inferred = append(inferred, st.Field(i).Name()+": "+d)
+						continue
+					}
 					missing = append(missing, st.Field(i).Name())
 				}
 			}
@@ -727,12 +736,75 @@ func (ld *Loaded) coverageScans(id string) []*FuncResult {
 		}
 		o.StaticOK = len(missing) == 0
 		o.Detail = fmt.Sprintf("all %d fields of %s carry a protection clause", n, k.typ)
+		if len(inferred) > 0 {
+			o.Detail += " (inferred from the uses: " + strings.Join(inferred, ", ") + ")"
+		}
 		if len(missing) > 0 {
 			o.Detail = fmt.Sprintf("fields of %s without a protection clause: %s", k.typ, strings.Join(missing, ", "))
 		}
 		out = append(out, &FuncResult{Key: "static:" + o.Name, Obls: []*Obligation{o}})
 	}
 	return out
+}
+
+// inferDiscipline tries the protection disciplines on a field that has no clause and returns the
+// first one its uses satisfy ("" if none).
+func (ld *Loaded) inferDiscipline(pkg, typ string, st *types.Struct, i int) string {
+	field := st.Field(i).Name()
+	try := func(kind, arg string) bool {
+		fd := &FieldDecl{Pkg: pkg, Type: typ, Field: field, Kind: kind, Arg: arg}
+		var r *FuncResult
+		if kind == "immutable" {
+			r = ld.immutableScan(fd)
+		} else {
+			r = ld.protectScan(fd)
+		}
+		for _, o := range r.Obls {
+			if !o.StaticOK {
+				return false
+			}
+		}
+		return true
+	}
+	if nt, ok := st.Field(i).Type().(*types.Named); ok && nt.Obj().Pkg() != nil {
+		if pp := nt.Obj().Pkg().Path(); (pp == "sync" || pp == "sync/atomic") && try("syncvalue", "") {
+			return "syncvalue"
+		}
+	}
+	if len(ld.accessesOf(pkg+"."+typ, field)) == 0 {
+		return "unused"
+	}
+	if try("atomic", "") {
+		return "atomic"
+	}
+	ctors := map[string]bool{}
+	for _, o := range ld.cs.Fields {
+		if o.Pkg == pkg && o.Type == typ && (o.Kind == "constructed_by" || o.Kind == "immutable") {
+			for _, c := range strings.Split(o.Arg, ",") {
+				if c = strings.TrimSpace(c); c != "" {
+					ctors[c] = true
+				}
+			}
+		}
+	}
+	if len(ctors) > 0 {
+		var cl []string
+		for c := range ctors {
+			cl = append(cl, c)
+		}
+		sort.Strings(cl)
+		if try("immutable", strings.Join(cl, ", ")) {
+			return "immutable"
+		}
+	}
+	for j := 0; j < st.NumFields(); j++ {
+		if nt, ok := st.Field(j).Type().(*types.Named); ok && nt.Obj().Pkg() != nil && nt.Obj().Pkg().Path() == "sync" && (nt.Obj().Name() == "Mutex" || nt.Obj().Name() == "RWMutex") {
+			if try("guarded_by", st.Field(j).Name()) {
+				return "guarded_by " + st.Field(j).Name()
+			}
+		}
+	}
+	return ""
 }
 
 // typesPkgOf: the package of a function, also for instantiations of generic functions and
